@@ -131,6 +131,7 @@ pub enum WriteResult {
 impl Runner {
     pub fn new(prog: &Prog, strong_clock: bool) -> Runner {
         let ctx = Ctx::new(prog.clone(), strong_clock);
+        crate::sink::attach(&ctx);
         let world = World::new(ctx.clone());
         let inp = Inputs {
             cells: vec![[0, 0]; prog.ncells],
@@ -148,11 +149,16 @@ impl Runner {
     }
 
     pub fn request(&self, req: &Req) -> Outcome {
+        self.request_c(req).0
+    }
+
+    /// Like `request`, also returning the logical clock of the `Call` record.
+    pub fn request_c(&self, req: &Req) -> (Outcome, u64) {
         self.ctx.steps.store(0, Ordering::Relaxed);
-        self.ctx.log.push(Rec::Call(0, req.clone()));
+        let c = self.ctx.log.push(Rec::Call(0, req.clone()));
         let o = do_request(&self.world, req);
         self.ctx.log.push(Rec::Ret(0, o.clone()));
-        o
+        (o, c)
     }
 
     /// Applies a write step to the database and to the model. The model follows what the
@@ -196,6 +202,12 @@ impl Runner {
                         if let Some(d) = dur {
                             self.durs[*cell][*field] = *d;
                         }
+                        self.ctx.log.push(Rec::SetField(
+                            *cell as u32,
+                            *field as u32,
+                            *val,
+                            self.durs[*cell][*field] as u8,
+                        ));
                         WriteResult::Ok
                     }
                     Err(p) => {
@@ -219,6 +231,7 @@ impl Runner {
                             self.violations
                                 .push("synthetic_write(NEVER_CHANGE) did not panic".into());
                         }
+                        self.ctx.log.push(Rec::Synth(*d as u8));
                         WriteResult::Ok
                     }
                     Err(p) => {
@@ -239,15 +252,19 @@ impl Runner {
                 self.ctx.unt[*unt].store(*val, Ordering::Relaxed);
                 self.inp.unt[*unt] = *val;
                 db.synthetic_write(sdur(*dur));
+                self.ctx.log.push(Rec::SetUnt(*unt as u32, *val));
+                self.ctx.log.push(Rec::Synth(*dur as u8));
                 WriteResult::Ok
             }
             Step::SetLru(n) => {
                 set_lru(&mut self.world, *n);
                 self.lru_cap = *n;
+                self.ctx.log.push(Rec::SetLru(*n as u32));
                 WriteResult::Ok
             }
             Step::Evict => {
                 self.world.trigger_lru_eviction();
+                self.ctx.log.push(Rec::Evict);
                 WriteResult::Ok
             }
             Step::Req(_) => unreachable!(),
@@ -280,6 +297,10 @@ impl Runner {
 
 /// A fresh database fed the same current inputs (the literal wording of C01/C02/C26).
 pub fn fresh_outcome(prog: &Prog, inp: &Inputs, req: &Req) -> Outcome {
+    crate::sink::with_detached(|| fresh_outcome_inner(prog, inp, req))
+}
+
+fn fresh_outcome_inner(prog: &Prog, inp: &Inputs, req: &Req) -> Outcome {
     let ctx = Ctx::new(prog.clone(), false);
     ctx.log.enabled.store(false, Ordering::Relaxed);
     let mut w = World::new(ctx.clone());
